@@ -29,7 +29,8 @@ def data_limit(limit=None, refusals=None):
             n_real, n_masked = len(json.dumps(data)), len(json.dumps(mask_cause(data)))
             lim = se.MAX_DATA_LENGTH
             if next_state is not None:
-                refusals.append({"size": n_real, "state": name, "type": state_type})
+                refusals.append({"size": n_real, "state": name, "type": state_type,
+                                 "text": json.dumps(data, separators=(",", ":"))})
                 if (n_real > lim) != (n_masked > lim):
                     refusals.append({"cause_text_decides": True, "state": name, "type": state_type})
             res = real(self, state_machine, state_type, next_state, event)
@@ -111,8 +112,11 @@ def run_case(machine, data, plans, policy="canonical", rng=None, sm_type="STANDA
         r = _run_case(machine, data, plans, policy, rng, sm_type, max_steps, instances, name, sim, monitor, logging_cfg)
     r.refusals = [x for x in refusals if "error" in x]
     r.cause_text_decides = [x for x in refusals if x.get("cause_text_decides")]
-    r.sizes = [x["size"] for x in refusals if "size" in x] + [len(json.dumps(d)) for ents in pl_table(r).values()
-                                                               for (_p, reps) in ents.values() for d in reps]
+    replies = [d for ents in pl_table(r).values() for (_p, reps) in ents.values() for d in reps]
+    r.sizes = [x["size"] for x in refusals if "size" in x] + [len(json.dumps(d)) for d in replies]
+    # every datum a size check measured, as protocol text, with the length the code saw
+    r.measured = ([(x["text"], x["size"]) for x in refusals if "size" in x] +
+                  [(json.dumps(d, separators=(",", ":")), len(json.dumps(d))) for d in replies])
     r.max_data = max_data
     return r
 
